@@ -329,5 +329,76 @@ theorem java_eq_c_DCSPb_Compt (hN : inI32 (T.Nq_Compt Z.toNat)) (haw0 : ∀ v, J
 
 end barns
 
+section kissel
+variable (T : Tables ℝ) (Z m : Int) (hZ : inI32 Z) (hm : inI32 m) (E : ℝ) (s : Slot) (hs : s.isFull = false)
+include hZ hm hs
+
+theorem java_eq_c_CSb_Photo_Partial (hN : inI32 (T.NE_Photo_Partial_Kissel Z.toNat m.toNat))
+    (hlenE : (T.E_Photo_Partial_Kissel Z.toNat m.toNat).len = T.NE_Photo_Partial_Kissel Z.toNat m.toNat)
+    (hlenP : (T.Photo_Partial_Kissel Z.toNat m.toNat).len = T.NE_Photo_Partial_Kissel Z.toNat m.toNat)
+    (hq : m < 28 ∨ T.Electron_Config_Kissel Z.toNat m.toNat < 1.0e-6) :
+    JRel (JGen.CSb_Photo_Partial (JTables.ofC T) Z m E) (Gen.CSb_Photo_Partial T Z m E s) s := by
+  jeq_start JGen.CSb_Photo_Partial Gen.CSb_Photo_Partial
+  by_cases hz : Z < 1 ∨ Z > 120
+  · jeq_auto
+  by_cases hsh : m < 0 ∨ m ≥ 31
+  · jeq_auto
+  by_cases hE : E ≤ 0
+  · jeq_auto
+  simp (disch := omega) only [jrd_dynK]
+  jeq_simp
+  by_cases hcfg : T.Electron_Config_Kissel Z.toNat m.toNat < 10e-7
+  · jeq_auto
+  have hm28 : m < 28 := by
+    rcases hq with h | h
+    · exact h
+    · exact absurd h hcfg
+  have hm28' : ¬ (m ≥ 28) := by omega
+  jeq_simp
+  by_cases hedge : T.EdgeEnergy_arr Z.toNat m.toNat ≤ 0
+  · jeq_auto
+  jeq_simp
+  by_cases hlow : E < T.EdgeEnergy_arr Z.toNat m.toNat
+  · jeq_auto
+  jeq_simp
+  simp only [jrd_jvec, rdv_def, hlenE, hlenP]
+  by_cases hn0 : T.NE_Photo_Partial_Kissel Z.toNat m.toNat ≤ 0
+  · have h2 : ¬ ((0 : Int) ≤ 0 ∧ 0 < T.NE_Photo_Partial_Kissel Z.toNat m.toNat) := by omega
+    simp only [hn0, h2, ↓reduceIte, bind_error, jbind_error]
+    exact JRel.ub
+  have h2 : ((0 : Int) ≤ 0 ∧ 0 < T.NE_Photo_Partial_Kissel Z.toNat m.toNat) := by omega
+  simp only [hn0, h2, ↓reduceIte, bind_ok, jbind_ok, Int.toNat_zero, and_self, true_and, le_refl]
+  by_cases hlog : Real.log E < (T.E_Photo_Partial_Kissel Z.toNat m.toNat).get 0
+  · simp only [hlog, ↓reduceIte]
+    by_cases h1 : (0 : Int) ≤ 1 ∧ 1 < T.NE_Photo_Partial_Kissel Z.toNat m.toNat
+    · simp only [h1, and_self, ↓reduceIte, bind_ok, jbind_ok]
+      jeq_auto
+    · simp only [h1, ↓reduceIte, bind_ok, jbind_ok, bind_error, jbind_error]
+      exact JRel.ub
+  · simp only [hlog, ↓reduceIte]
+    rcases (jsplint_rel_vec (JTables.ofC T) (T.E_Photo_Partial_Kissel Z.toNat m.toNat) (T.Photo_Partial_Kissel Z.toNat m.toNat)
+      (T.Photo_Partial_Kissel2 Z.toNat m.toNat) (T.NE_Photo_Partial_Kissel Z.toNat m.toNat) hN
+      (Real.log E) s hs).cases with ⟨y, hc, hj⟩ | ⟨e, hc, hj⟩ | ⟨a, b, hc, hj⟩ | ⟨a, hc⟩ <;> jeq_auto
+
+omit hs in
+theorem java_pos_CSb_Photo_Partial : JPos (JGen.CSb_Photo_Partial (JTables.ofC T) Z m E) := by
+  unfold JGen.CSb_Photo_Partial
+  dsimp only
+  jpos_struct
+
+theorem java_eq_c_CS_Photo_Partial (hN : inI32 (T.NE_Photo_Partial_Kissel Z.toNat m.toNat))
+    (hlenE : (T.E_Photo_Partial_Kissel Z.toNat m.toNat).len = T.NE_Photo_Partial_Kissel Z.toNat m.toNat)
+    (hlenP : (T.Photo_Partial_Kissel Z.toNat m.toNat).len = T.NE_Photo_Partial_Kissel Z.toNat m.toNat)
+    (hq : m < 28 ∨ T.Electron_Config_Kissel Z.toNat m.toNat < 1.0e-6) :
+    JRel (JGen.CS_Photo_Partial (JTables.ofC T) Z m E) (Gen.CS_Photo_Partial T Z m E s) s := by
+  by_cases hz : Z < 1 ∨ Z > 120
+  · jeq_start JGen.CS_Photo_Partial Gen.CS_Photo_Partial JGen.CSb_Photo_Partial Gen.CSb_Photo_Partial; jeq_auto
+  by_cases hsh : m < 0 ∨ m ≥ 31
+  · jeq_start JGen.CS_Photo_Partial Gen.CS_Photo_Partial JGen.CSb_Photo_Partial Gen.CSb_Photo_Partial; jeq_auto
+  jeq_start JGen.CS_Photo_Partial Gen.CS_Photo_Partial
+  jeq_use_pos (java_eq_c_CSb_Photo_Partial T Z m hZ hm E s hs hN hlenE hlenP hq), (java_pos_CSb_Photo_Partial T Z m hZ hm E)
+  jeq_auto
+end kissel
+
 end C19
 end Xrl
